@@ -272,6 +272,22 @@ func scenarios() []*Scenario {
 			},
 			Observe: func(s any) string { return "later:" + exp(s, T0.Add(1000*time.Second)) },
 		})
+		// the deletion empties the second's bucket while two registrations for the same second arrive
+		out = append(out, &Scenario{
+			Name: impl.name + ": [a@T alone in its second] Delete(a) || Insert(c,T+0.1s) || Insert(d,T+0.2s)",
+			New: func() any {
+				l := impl.mk()
+				l.Insert("a", T0)
+				return l
+			},
+			Threads: [][]Op{
+				{{"Delete(a)", func(s any) string { s.(expiration.List).Delete("a", T0); return "" }}},
+				{{"Insert(c)", func(s any) string { s.(expiration.List).Insert("c", T0.Add(100*time.Millisecond)); return "" }}},
+				{{"Insert(d)", func(s any) string { s.(expiration.List).Insert("d", T0.Add(200*time.Millisecond)); return "" }}},
+			},
+			Observe:       func(s any) string { return "later:" + exp(s, T0.Add(1000*time.Second)) },
+			SingleOutcome: true,
+		})
 	}
 	// (5) tries
 	out = append(out, &Scenario{
